@@ -6,9 +6,15 @@ import (
 	"fmt"
 	"net/http"
 	"net/http/httptest"
+	"os"
+	"path/filepath"
+	"strings"
 	"sync"
 
+	"deps.dev/util/resolve"
+	"deps.dev/util/semver"
 	"github.com/google/osv-scalibr/clients/datasource"
+	"github.com/google/osv-scalibr/clients/resolution"
 )
 
 // ---------------------------------------------------------------- clients part (C16, shared registry client state)
@@ -58,7 +64,124 @@ func runClients(nregs, attempts int) clientsResult {
 	return res
 }
 
+// ---- npm: resolution.NPMRegistryClient over datasource.NPMRegistryAPIClient (one shared client, one package)
+
+type npmResult struct {
+	Versions    int      `json:"versions"`
+	Goroutines  int      `json:"concurrent_calls"`
+	Rounds      int      `json:"rounds"`
+	Problems    []string `json:"problems,omitempty"`
+	Requests    int      `json:"http_requests"`
+	SampleFirst []string `json:"first_versions"`
+}
+
+func runNPMClients(nvers, goroutines, rounds int) npmResult {
+	res := npmResult{Versions: nvers, Goroutines: goroutines, Rounds: rounds}
+	var want []string
+	for i := 0; i < nvers; i++ {
+		want = append(want, fmt.Sprintf("%d.%d.%d", 1+i/20, (i/4)%5, i%4))
+	}
+	var mu sync.Mutex
+	reqs := 0
+	srv := httptest.NewServer(http.HandlerFunc(func(w http.ResponseWriter, r *http.Request) {
+		mu.Lock()
+		reqs++
+		mu.Unlock()
+		var sb strings.Builder
+		name := strings.TrimPrefix(r.URL.Path, "/")
+		fmt.Fprintf(&sb, `{"name":%q,"dist-tags":{"latest":%q},"versions":{`, name, want[nvers-1])
+		// listed newest first: not in version order
+		for i := nvers - 1; i >= 0; i-- {
+			if i < nvers-1 {
+				sb.WriteString(",")
+			}
+			fmt.Fprintf(&sb, `%q:{"name":%q,"version":%q,"dependencies":{"dep":"^1.0.0"}}`, want[i], name, want[i])
+		}
+		sb.WriteString("}}")
+		w.Header().Set("Content-Type", "application/json")
+		_, _ = w.Write([]byte(sb.String()))
+	}))
+	defer srv.Close()
+	dir, err := os.MkdirTemp("", "c16npm")
+	must(err)
+	defer os.RemoveAll(dir)
+	must(os.WriteFile(filepath.Join(dir, ".npmrc"), []byte("registry="+srv.URL+"\n"), 0o644))
+	cl, err := resolution.NewNPMRegistryClient(dir)
+	must(err)
+	ctx := context.Background()
+	problem := func(f string, a ...any) {
+		mu.Lock()
+		if len(res.Problems) < 8 {
+			res.Problems = append(res.Problems, fmt.Sprintf(f, a...))
+		}
+		mu.Unlock()
+	}
+	check := func(who string, vs []resolve.Version, wantLen int) {
+		if len(vs) != wantLen {
+			problem("%s: %d versions, want %d", who, len(vs), wantLen)
+			return
+		}
+		for i := 1; i < len(vs); i++ {
+			if semver.NPM.Compare(vs[i-1].Version, vs[i].Version) >= 0 {
+				problem("%s: %s listed before %s", who, vs[i-1].Version, vs[i].Version)
+				return
+			}
+		}
+	}
+	for round := 0; round < rounds; round++ {
+		pk := resolve.PackageKey{System: resolve.NPM, Name: fmt.Sprintf("pkg%d", round)}
+		start := make(chan struct{})
+		var wg sync.WaitGroup
+		for g := 0; g < goroutines; g++ {
+			wg.Add(1)
+			go func() {
+				defer wg.Done()
+				<-start
+				if g%2 == 0 {
+					vs, err := cl.Versions(ctx, pk)
+					if err != nil {
+						problem("Versions: %v", err)
+						return
+					}
+					check("Versions", vs, nvers)
+				} else {
+					vs, err := cl.MatchingVersions(ctx, resolve.VersionKey{PackageKey: pk, Version: ">=1.0.0", VersionType: resolve.Requirement})
+					if err != nil {
+						problem("MatchingVersions: %v", err)
+						return
+					}
+					check("MatchingVersions", vs, nvers)
+				}
+			}()
+		}
+		close(start)
+		wg.Wait()
+		// repeated calls return identical, sorted lists
+		a, _ := cl.Versions(ctx, pk)
+		b, _ := cl.Versions(ctx, pk)
+		check("Versions (after)", a, nvers)
+		for i := range a {
+			if i < len(b) && a[i].Version != b[i].Version {
+				problem("repeated Versions calls differ at %d: %s vs %s", i, a[i].Version, b[i].Version)
+				break
+			}
+		}
+		if round == 0 {
+			for i := 0; i < 3 && i < len(a); i++ {
+				res.SampleFirst = append(res.SampleFirst, a[i].Version)
+			}
+		}
+	}
+	mu.Lock()
+	res.Requests = reqs
+	mu.Unlock()
+	return res
+}
+
 func clientsMain() {
+	nr := runNPMClients(60, 8, 4)
+	njs, _ := json.Marshal(nr)
+	fmt.Printf("clients-npm-run: %s\n", njs)
 	for _, n := range []int{0, 1, 2, 3, 5} {
 		r := runClients(n, 4)
 		js, _ := json.Marshal(r)
